@@ -98,6 +98,10 @@ func runC17(cx *Ctx, r *Report) {
 		ok := len(set) == 1 && len(cr) == 1 && set[0].ev.Args[0].LooseString() == "oracle/types.GetFeedStateKey(msg.FeedName, 1)" && len(cr[0].ev.Args) >= 12 && cr[0].ev.Args[10].LooseString() == "1" && cr[0].ev.Args[12].LooseString() == `"oracle"`
 		r.check(ok, "state-mirror", "CreateFeed", "", "a new feed is indexed PAUSED and its context is created PAUSED for module oracle", "a new feed's index state and its context's initial state differ")
 	}
+	// ---------------- the state callback sees the stored state
+	if n := cx.stateCallbackAfterPersist(r, "state-callback-after-persist"); n < 1 {
+		r.toolErr("no invocation of a StateCallback value found in the service module (1 confirmed)")
+	}
 	// ---------------- every response counts once
 	cx.c17AllResponsesCounted(r, per["RegisterResponseCallback"])
 	// ---------------- one value per response
@@ -182,6 +186,8 @@ func runC17(cx *Ctx, r *Report) {
 	// ---------------- trimming counts
 	cx.oracleTrimRule(r, per, "trim-count")
 	cx.lostUpdateRule(r, []string{"oracle"}, 8)
+	cx.scanPrefixClosedRule(r, []string{"oracle"}, "scan-prefix-closed")
+	cx.keyEncodingUniformRule(r, []string{"oracle"}, "key-encoding-uniform")
 	// the stored aggregate is the float64 result printed with 8 decimals: every FormatFloat
 	// reachable from the aggregate functions is ('f', 8, 64) and no value is narrowed to
 	// float32 on the way (7 significant digits would then be all that is correct)
@@ -438,7 +444,9 @@ func (cx *Ctx) c17AllResponsesCounted(r *Report, evs []hev) {
 
 // keepTrimIdiom: the delete at d removes, oldest first, all but the newest K values of a
 // feed:  keys := <all keys under the feed's value prefix, ascending>;
-//        for _, key := range keys[:len(keys)-K] { store.Delete(key) }
+//
+//	for _, key := range keys[:len(keys)-K] { store.Delete(key) }
+//
 // with K the last parameter of the deleting function (possibly clamped at zero). Returns
 // K's term on this call chain.
 func (cx *Ctx) keepTrimIdiom(d hev) (string, bool) {
@@ -526,4 +534,60 @@ func (cx *Ctx) keepTrimIdiom(d hev) (string, bool) {
 		return "", false
 	}
 	return d.w.ts.Of(last, d.ev.Fr).LooseString(), true
+}
+
+// stateCallbackAfterPersist (C17, C08): the module state callback is told nothing but the
+// context id - the oracle's handler re-reads the request context from the service store to
+// learn the new state. It must therefore be invoked AFTER the changed context has been
+// stored; called before the write it still sees the old state and moves the feed to the
+// wrong side of the running / paused index.
+func (cx *Ctx) stateCallbackAfterPersist(r *Report, rule string) int {
+	n := 0
+	for _, f := range cx.P.AllFuncs {
+		if f.Blocks == nil || !isConsensusCode(cx, f) || moduleOf(funcPkgPath(f)) != "service" {
+			continue
+		}
+		var persists []ssa.Instruction
+		var calls []ssa.CallInstruction
+		for _, b := range f.Blocks {
+			for _, ins := range b.Instrs {
+				ci, ok := ins.(ssa.CallInstruction)
+				if !ok {
+					continue
+				}
+				if !ci.Common().IsInvoke() && ci.Common().StaticCallee() == nil {
+					if nt, ok := ci.Common().Value.Type().(*types.Named); ok && nt.Obj().Name() == "StateCallback" {
+						calls = append(calls, ci)
+						continue
+					}
+				}
+				for _, e := range cx.calleesOf(ci) {
+					if e.Kind == "dynamic" || e.Callee.Blocks == nil {
+						continue
+					}
+					for _, g := range cx.reachableCS([]*ssa.Function{e.Callee}).Order {
+						if g.Blocks == nil || !isIrismodFunc(g) {
+							continue
+						}
+						for _, p := range cx.primsOf(g) {
+							if p.Kind == "store.set" && len(p.Prefix) == 1 && p.Prefix[0] == "service:RequestContextKey=0x08" {
+								persists = append(persists, ins)
+							}
+						}
+					}
+				}
+			}
+		}
+		for _, c := range calls {
+			n++
+			ok := false
+			for _, p := range persists {
+				if p.Block() == c.Block() && instrIndex(p) < instrIndex(c) || p.Block() != c.Block() && p.Block().Dominates(c.Block()) {
+					ok = true
+				}
+			}
+			r.check(ok, rule, shortFn(f), cx.P.Pos(c.Pos()), "the state callback is invoked after the changed request context has been stored", "in "+shortFn(f)+" the module state callback is invoked before the changed request context is stored: the callback (the oracle's) re-reads the context from the store, still sees the old state and leaves the feed indexed under it - feed state and context state disagree from then on")
+		}
+	}
+	return n
 }
